@@ -588,9 +588,29 @@ theorem hasKey_false_iff {m : List (Int × Int)} {k : Int} : hasKey m k = false 
   simp [hasKey]
 
 theorem mem_pubR (old : Target) (now : Nat) (k : Int) :
-    k ∈ pubR old now ↔ (k ∈ keys old.items ∨ k ∈ old.removed) ∧ ¬(old.lmt = now ∧ k ∈ old.added) := by
-  simp [pubR, List.mem_filter]
-  grind
+    k ∈ pubR old now ↔
+      (k ∈ keys old.items ∨ (old.lmt = now ∧ k ∈ old.removed)) ∧ ¬(old.lmt = now ∧ k ∈ old.added) := by
+  by_cases h : old.lmt = now <;> simp [pubR, List.mem_filter, h] <;> grind
+
+/-- the published-key test as it was BEFORE the fix of finding C13-B: every pending-erase slot of the
+    previous target counted, whatever the cycle of the removal -/
+def pubRPreFix (old : Target) (now : Nat) : List Int :=
+  (keys old.items ++ old.removed).filter (fun k => !(old.lmt == now && old.added.contains k))
+
+/-- why the fix was needed: a target that removed a key in an EARLIER cycle (`lmt ≠ now`) still had that
+    key in the pre-fix published set, so a retarget away from it reported the key as removed again
+    although it is not among the target's keys; the fixed `pubR` is exactly the live key set there -/
+theorem pubRPreFix_reports_stale (old : Target) (now : Nat) (k : Int) (hl : old.lmt ≠ now)
+    (hr : k ∈ old.removed) : k ∈ pubRPreFix old now ∧ (k ∈ pubR old now ↔ k ∈ keys old.items) := by
+  constructor
+  · simp [pubRPreFix, List.mem_filter, hl, hr]
+  · rw [mem_pubR]; simp [hl]
+
+/-- the implementation replay of C13-B (`cfg tss .. / c sel=a a=+1,+2 / c a=-2 / c b=+5 / c sel=b`): the old
+    target holds `{1}` with the pending-erase slot `2` of cycle 2; in cycle 4 the pre-fix test publishes
+    `2`, the fixed one does not -/
+example : (2 : Int) ∈ pubRPreFix { valid := true, items := [(1, 0)], lmt := 2, removed := [2] } 4 ∧
+    (2 : Int) ∉ pubR { valid := true, items := [(1, 0)], lmt := 2, removed := [2] } 4 := by decide
 
 theorem pubA_iff (old : Target) (now : Nat) (k : Int) :
     pubA old now k = true ↔
